@@ -2019,8 +2019,8 @@ class Stream(AbstractStream):
         new._thermo = self._thermo
         new._imol = self._imol
         new._thermal_condition = self._thermal_condition
-        new._property_cache = self._property_cache
-        new._property_cache_key = self._property_cache_key
+        new._property_cache = {}
+        new._property_cache_key = None, None
         for name in ('_streams', '_vle_cache', '_lle_cache', '_sle_cache'):
             if hasattr(self, name): setattr(new, name, getattr(self, name))
         new.equations = self.equations
